@@ -447,6 +447,8 @@ pub fn run_shard(ctx: &ShardCtx) -> ShardReport {
         let tl = part.tape_len();
         let strategy = pvec(any::<u32>(), (tl / 8).max(1)..=tl);
         let failed = Cell::new(false);
+        let first_sig: RefCell<String> = RefCell::new(String::new());
+        let last_fail: RefCell<Option<(Vec<u32>, Failure)>> = RefCell::new(None);
         let mut remaining_cfg = cfg.clone();
         // After a violation is found (and shrunk) generation goes on with the
         // remaining budget, so that one finding does not hide the next; the
@@ -471,9 +473,12 @@ pub fn run_shard(ctx: &ShardCtx) -> ShardReport {
                 }
                 let (o, h) = part.run_tape(&tape);
                 if failed.get() {
-                    // shrinking phase: no statistics, just pass/fail
+                    // shrinking phase: no statistics, just pass/fail; only the
+                    // signature first seen counts, so that shrinking does not
+                    // slide into a different (possibly known) failure
                     return match &o.failure {
-                        Some(f) if !ctx.known.contains(&f.signature) => {
+                        Some(f) if f.signature == *first_sig.borrow() => {
+                            *last_fail.borrow_mut() = Some((tape.clone(), f.clone()));
                             Err(TestCaseError::fail(f.signature.clone()))
                         }
                         _ => Ok(()),
@@ -490,6 +495,8 @@ pub fn run_shard(ctx: &ShardCtx) -> ShardReport {
                     Some(f) if st.seen_violation_sigs.contains(&f.signature) => Ok(()),
                     Some(f) => {
                         failed.set(true);
+                        *first_sig.borrow_mut() = f.signature.clone();
+                        *last_fail.borrow_mut() = Some((tape.clone(), f.clone()));
                         Err(TestCaseError::fail(f.signature.clone()))
                     }
                 }
@@ -498,23 +505,21 @@ pub fn run_shard(ctx: &ShardCtx) -> ShardReport {
             done += after - before;
             match result {
                 Ok(()) => break,
-                Err(TestError::Fail(_, tape)) => {
-                    let (o, _) = part.run_tape(&tape);
+                Err(TestError::Fail(_, _)) => {
+                    // the smallest tape on which the failure was actually
+                    // observed, with what was observed (a case that depends on
+                    // hash-map iteration order may not fail on every run)
+                    let observed = last_fail.borrow_mut().take();
                     let mut st = state.borrow_mut();
-                    if let Some(f) = o.failure {
+                    if let Some((tape, f)) = observed {
                         st.seen_violation_sigs.insert(f.signature.clone());
+                        let (again, _) = part.run_tape(&tape);
+                        let deterministic = again.failure.as_ref().map_or(false, |g| g.signature == f.signature);
                         st.report.violations.push(json!({
                             "property": ctx.def.id, "part": pname, "signature": f.signature,
                             "detail": f.detail, "case": part.decode(&tape), "tape": tape,
                             "origin": "generated+shrunk",
-                        }));
-                    } else {
-                        // shrunk case no longer fails deterministically
-                        // (RandomState-dependent): report the unshrunk signature
-                        st.report.violations.push(json!({
-                            "property": ctx.def.id, "part": pname, "signature": "flaky-after-shrink",
-                            "detail": "failure did not reproduce on the shrunk tape", "case": part.decode(&tape),
-                            "tape": tape, "origin": "generated",
+                            "replay_tries": if deterministic { 1 } else { 50 },
                         }));
                     }
                 }
